@@ -41,7 +41,24 @@ fn case(rng: &mut Rng, out: &mut CaseOut) {
     let poison = rng.chance(1, 2);
     let _p = Poison::new(poison, rng.next_u64());
     let a = gen::originals(rng, k, size);
-    let b = gen::originals(rng, k, size);
+    // b: another data set, or (a quarter of the cases) the delta of a small
+    // update - a few bytes in one or two shards, everything else zero
+    let delta = rng.chance(1, 4);
+    let b = if delta {
+        let mut d = vec![vec![0u8; size]; k];
+        for _ in 0..rng.range(1, 2) {
+            let i = rng.below(k);
+            for _ in 0..rng.range(1, 3) {
+                let at = rng.below(size);
+                let len = rng.range(1, 4).min(size - at);
+                let bytes = rng.bytes(len);
+                d[i][at..at + len].copy_from_slice(&bytes);
+            }
+        }
+        d
+    } else {
+        gen::originals(rng, k, size)
+    };
     let desc = format!("k={k} r={r} rate={} size={size} api={}", rate.name(), api.name());
     // half of the cases run all encodes of the case on ONE encoder object
     // (consecutive rounds, implicit reset), the other half on fresh encoders:
@@ -89,6 +106,9 @@ fn case(rng: &mut Rng, out: &mut CaseOut) {
     match enc(&scale(&a, c)) {
         Ok(eca) if eca == scale(&ea, c) => {}
         _ => out.violate("C13:not-homogeneous", format!("{desc}: enc(c*a) != c*enc(a) for c={c:#06x}")),
+    }
+    if delta {
+        out.tag("b-is-small-delta");
     }
     out.tag(if shared { "one-encoder-object" } else { "fresh-encoders" });
     out.tag(format!("rate:{}", rate.name()));
